@@ -26,7 +26,7 @@ KINDS = ["K_TIMER", "K_TIMER_P", "K_IO", "K_IO_P", "K_SIG_P"]
 
 def _ob(k0, k1, L, **kw):
     d = dict(name="hist_%s_%s_len%d" % (k0[2:].lower(), k1[2:].lower(), L), harness="C02_statemachine.c", entry="harness_history",
-             sources=["evmap.c"], defines=["C02_KIND0=" + k0, "C02_KIND1=" + k1, "C02_LEN=%d" % L],
+             sources=[], defines=["C02_KIND0=" + k0, "C02_KIND1=" + k1, "C02_LEN=%d" % L],
              unwind=10, unwindset=["run:%d" % (L + 2)], instrument=_PIN, timeout=900, mem_gb=4, cbmc=["--object-bits", "12", "--no-standard-checks"],
              desc="all histories of %d API calls over a %s and a %s event vs the reference model" % (L, k0, k1))
     d.update(kw)
@@ -34,5 +34,5 @@ def _ob(k0, k1, L, **kw):
     return d
 
 def obligations(tier):
-    obs = [_ob("K_TIMER", "K_IO_P", 1)]
+    obs = [_ob("K_TIMER", "K_IO_P", 1), _ob("K_TIMER", "K_IO_P", 2)]
     return obs
